@@ -19,8 +19,11 @@ def budget(tier):
 
 def gen(rng, index, tier):
     raw, meta = lib.gen_dataset(rng, nmax=7 if tier == "quick" else 10, mmax=5)
-    return {"dataset": raw, "scheme": common.family_scheme(rng), "use_bid": rng.random() < 0.5, "meta": meta,
+    case = {"dataset": raw, "scheme": common.family_scheme(rng), "use_bid": rng.random() < 0.5, "meta": meta,
             "perm_seed": rng.randint(0, 10 ** 6)}
+    if rng.random() < 0.12:
+        case["past"] = common.gen_past(rng, raw)
+    return case
 
 
 def _run(ds, sch, use_bid, coder):
@@ -40,6 +43,11 @@ def impl(case):
     import random
     try:
         ds, sch, coder, obs, s = common.prep(case)
+        if case.get("past"):
+            common.apply_past(ds, sch, case["past"], extra_query=lambda: _run(ds, sch, case["use_bid"], coder))
+            obs = lib.observe_dataset(ds, coder)
+            case = dict(case)
+            case["dataset"] = [[[coder.value(x) for x in b] for b in r] for r in obs]
         out = _run(ds, sch, case["use_bid"], coder)
         # metamorphic: order of the rankings
         prng = random.Random(case["perm_seed"])
